@@ -187,6 +187,29 @@ pub fn salts(ctx: &Ctx, rep: &mut Report) {
         all.extend(c);
         check_history("everything together", &all, rep);
     }
+    // the retry paths of sign (compression failure forced by the failpoint, real randomness):
+    // a salt that is re-drawn, cleared or reused when signing restarts shows up here
+    let (keys3, _) = pool::keys::<F512>(ctx.seed, "c08", 2);
+    let (keys4, _) = pool::keys::<F1024>(ctx.seed, "c08", 1);
+    if keys3.len() == 2 && keys4.len() == 1 {
+        let mut retry: Vec<SaltRec> = vec![];
+        vh::set_sign_rng(None);
+        for i in 0..ctx.sz(300, 5000) {
+            let fails = 1 + (i % 3) as u32;
+            let msg = if i % 2 == 0 { b"retry path, same message".to_vec() } else { format!("retry-{}", i).into_bytes() };
+            vh::set_compress_failures(fails);
+            let b = if i % 4 == 3 { monitored(|| F1024::sig_to_bytes(&F1024::sign(&msg, &keys4[0].sk))) } else { monitored(|| F512::sig_to_bytes(&F512::sign(&msg, &keys3[i % 2].sk))) };
+            vh::set_compress_failures(0);
+            if let Ok(b) = b {
+                retry.push(SaltRec { salt: b[1..41].to_vec(), sig_hash: crate::util::hash64(&b), ctx: format!("sign call {} with {} forced compression failure(s)", i, fails) });
+            }
+        }
+        rep.count("signatures_through_the_compression_retry_path", retry.len() as u64);
+        check_history("signatures that went through the compression-retry path", &retry, rep);
+        rep.nontrivial_s("history|compress-retry-path");
+        all.extend(retry);
+        check_history("everything together (incl. retry path)", &all, rep);
+    }
     // back-to-back in one thread
     let (keys, _) = pool::keys::<F512>(ctx.seed, "c08", 1);
     if let Some(k) = keys.first() {
